@@ -175,6 +175,9 @@ func c14(c *Ctx) {
 
 	c14ExportBuffer(c, "C14.1/export-buffer-under-lock")
 	c14TxHolders(c, "C14.1/tx-holders-released")
+	c14OngoingTxReleased(c, "C14.8/store-transactions-are-closed")
+	// the truncation plan is a header or an error: the truncator dereferences what it is given (analysis shared with C16.14)
+	c16NoNilNil(c, "C14.9/truncation-plan-is-a-header-or-an-error", []string{"pkg/database", "pkg/truncator"})
 	// ---- C14.5 export of truncated transactions terminates ----------------------------------------------
 	r = "C14.5/truncated-export"
 	if f := c.mustFn(r, storeT+"readValueAt"); f != nil {
@@ -528,5 +531,74 @@ func c14CatalogCopyComplete(c *Ctx, r string) {
 	}
 	if n < 4 {
 		c.undecided(r, "floor", fmt.Sprintf("%d persisted catalog kinds found (tables, columns, indexes, checks, views, sequences expected)", n))
+	}
+}
+
+// c14OngoingTxReleased: a store transaction opened by the database layer holds snapshots of the indexes until it is
+// committed or cancelled. A path that leaves the function with neither (the failure of a step between NewTx and
+// Commit) leaks them; a truncation that keeps failing this way exhausts MaxActiveSnapshots and the database stops
+// serving every request that needs a snapshot. Transactions handed to the caller (returned, or wrapped into a value
+// that is returned) are the caller's to close.
+func c14OngoingTxReleased(c *Ctx, r string) {
+	n := 0
+	open := callTo(storeT+"NewTx", storeT+"NewWriteOnlyTx", "pkg/database.(*db).newTx", "pkg/database.(*db).newWriteOnlyTx")
+	done := callTo(otxT+"Cancel", otxT+"Commit", otxT+"AsyncCommit")
+	for _, f := range c.allFns {
+		if !fnInPkgs(f, []string{"pkg/database"}) || len(f.Blocks) == 0 {
+			continue
+		}
+		for i, in := range sites(f, open) {
+			cl := in.(*ssa.Call)
+			var tx ssa.Value
+			for _, rf := range *cl.Referrers() {
+				if ex, ok := rf.(*ssa.Extract); ok && ex.Index == 0 {
+					tx = ex
+				}
+			}
+			if tx == nil {
+				continue
+			}
+			// handed over: used as an argument of a call whose result is returned / stored, or returned itself
+			escapes := false
+			for _, rf := range *tx.Referrers() {
+				switch x := rf.(type) {
+				case *ssa.Return, *ssa.Store, *ssa.MakeInterface, *ssa.MakeClosure:
+					escapes = true
+				case *ssa.Call:
+					if done(x) {
+						continue
+					}
+					if x.Call.StaticCallee() != nil && strings.Contains(x.Call.StaticCallee().Name(), "New") {
+						escapes = true
+					}
+					// passed to a call whose result is returned: a wrapper
+					for _, r2 := range *x.Referrers() {
+						if _, isRet := r2.(*ssa.Return); isRet {
+							escapes = true
+						}
+						if ex, isEx := r2.(*ssa.Extract); isEx {
+							for _, r3 := range *ex.Referrers() {
+								if _, isRet := r3.(*ssa.Return); isRet {
+									escapes = true
+								}
+							}
+						}
+					}
+				}
+			}
+			construct := fmt.Sprintf("%s:tx#%d", fnName(f), i)
+			if escapes {
+				c.okTrivial(r, construct, c.pos(in.Pos()), "handed to the caller")
+				continue
+			}
+			n++
+			q := &pathQ{fn: f, from: []ssa.Instruction{in}, to: isReturn, via: done, deferVia: true, barrier: errEdgeOf(in)}
+			w := q.bypass()
+			c.check(w == nil, r, construct, c.pos(in.Pos()), "committed or cancelled (or its Cancel deferred) on every path to a return",
+				"a store transaction opened here can leave the function neither committed nor cancelled: its snapshots stay active ("+c.witnessStr(w)+")")
+		}
+	}
+	if n < 3 {
+		c.undecided(r, "floor", fmt.Sprintf("%d store transactions opened and closed by pkg/database found", n))
 	}
 }
